@@ -57,6 +57,7 @@ impl<'t> VirtualMachine<'t> {
 #[verifier::external_body]
 pub struct VxUtf8Error { _p: () }
 impl Error { #[verifier::external_body] pub fn from_utf8(e: VxUtf8Error) -> Error { unimplemented!() } }
+impl From<VxUtf8Error> for Error { #[verifier::external_body] fn from(e: VxUtf8Error) -> Error { unimplemented!() } }
 /// `String::from_utf8`: the text of the bytes, or an error if they are not UTF-8
 #[verifier::external_body]
 pub fn vx_string_from_utf8(v: Vec<u8>) -> (r: Result<String, VxUtf8Error>)
